@@ -305,7 +305,7 @@ class LazyDictV:
     produced by gen_value when first read, count: m).  What is not in the overlay is, by
     construction, exactly as it was -- the frame comes for free."""
 
-    __slots__ = ("ident", "overlay", "base_alive", "base_dom", "m", "gen_value", "gen_key", "default_factory", "n_touch", "touched_log", "it_memo", "version")
+    __slots__ = ("ident", "overlay", "base_alive", "base_dom", "m", "gen_value", "gen_key", "default_factory", "n_touch", "touched_log", "it_memo", "version", "universals")
 
     def __init__(self, ident, base_dom, m, gen_value, gen_key=None, default_factory=None):
         self.ident = ident
@@ -320,6 +320,7 @@ class LazyDictV:
         self.touched_log = []  # (ordinal, key) of entries materialised from the base
         self.it_memo = {}
         self.version = 0  # bumped by clear()
+        self.universals = []  # (view kind, fact): facts about every entry of the base (pyvc/quant.py)
 
     def __repr__(self):
         return f"LazyDictV<{self.ident} overlay={len(self.overlay)}>"
